@@ -180,6 +180,12 @@ class M(Model):
         return out
 
     # ------------------------------------------------------------------ C10
+    def solve_action(self, s, r=0):
+        """Driver hook ('solve' plan mode): next move of the push planner (boxes adjacent to a target are pushed onto
+        it; the box order depends on r); None when no such push is reachable -> legal fallback."""
+        order = [(r + i) % NBOX for i in range(NBOX)]
+        return _push_plan(s, order)
+
     def validate_instance(self, s0):
         out = []
         fixed, var = np.asarray(s0.fixed_grid), np.asarray(s0.variable_grid)
